@@ -270,7 +270,7 @@ Hypothesis WF : wf_in f.
 Hypothesis HA : fi_arch f = A64.
 Hypothesis HV : qget (cc_srsize (fi_cc f)) 1 = 8.          (* cdecl-like conventions: D registers are what is preserved *)
 Hypothesis HNDA : fin_has_da f = false.                     (* DESIGN 7.31: alignment > 16 is not implemented *)
-Hypothesis HSA : fi_sa_reg f = id_bad.                      (* the prolog never sets up an SA register *)
+Hypothesis HSA : fi_sa_reg f = id_bad \/ fi_sa_fix f = true.  (* pinned tree: the prolog never sets up an SA register; fixed tree: any *)
 Hypothesis HADJ : fo_stack_adj (finalize f) <= 16777215.    (* larger adjustments are refused with an error *)
 
 Let o := finalize f.
@@ -286,8 +286,12 @@ Proof. apply (wc_a64 _ _ (wi_cc f WF) HA). Qed.
 Lemma srs0 : qget (cc_srsize cc) 0 = 8.
 Proof. pose proof (wc_rs _ _ (wi_cc f WF)) as H. rewrite HA in H. exact H. Qed.
 
-Lemma a64_sa : fin_sa f = 31.
-Proof. unfold fin_sa. rewrite HA, HSA, HNDA. reflexivity. Qed.
+Lemma a64_sa : fin_sa f = 31 \/ (0 <= fin_sa f < 31 /\ fi_sa_fix f = true).
+Proof.
+  unfold fin_sa. rewrite HA, HNDA. cbn [sp_id andb]. pose proof (wi_sa f WF) as W. rewrite HA in W. cbn [is_x86_family sp_id] in W.
+  destruct (Z.eqb_spec (fi_sa_reg f) id_bad) as [E|E]; [left; reflexivity|].
+  destruct W as [W|[W1 W2]]; [congruence|]. destruct HSA as [H|H]; [congruence|]. right. split; auto.
+Qed.
 
 Definition m0 := saved_regs f o 0.
 Definition m1 := saved_regs f o 1.
@@ -321,8 +325,16 @@ Proof. rewrite gps_eq. destruct (fi_has_fp f); [cbn; split; auto|]; apply a64_pa
 Lemma vps_seq : pairs_seq vps gpt.
 Proof. rewrite vps_eq. apply a64_pairs_seq. Qed.
 
-Lemma dirty0_a64 : q0 (fin_dirty f) = if has_fp then Z.lor (Z.lor (q0 (fi_dirty f)) (bit 29)) (bit 30) else q0 (fi_dirty f).
-Proof. unfold fin_dirty. rewrite a64_sa, HA. cbn [q0 fp_id has_link_reg sp_id andb Z.eqb Pos.eqb]. destruct (fi_has_fp f); reflexivity. Qed.
+Lemma dirty0_a64 : q0 (fin_dirty f) =
+  let d := if has_fp then Z.lor (Z.lor (q0 (fi_dirty f)) (bit 29)) (bit 30) else q0 (fi_dirty f) in
+  if fin_sa f =? 31 then d else Z.lor d (bit (fin_sa f)).
+Proof. unfold fin_dirty. rewrite HA. cbn [q0 fp_id has_link_reg sp_id andb]. unfold lr_id. destruct (fi_has_fp f); reflexivity. Qed.
+
+Lemma dirty0_sa_bit : fin_sa f <> 31 -> Z.testbit (q0 (fin_dirty f)) (fin_sa f) = true.
+Proof.
+  intros Hne. rewrite dirty0_a64. cbv zeta. destruct (Z.eqb_spec (fin_sa f) 31); [congruence|].
+  destruct a64_sa as [?|[Hs _]]; [congruence|]. rewrite lor_bit_testbit by lia. rewrite Z.eqb_refl. apply orb_true_r.
+Qed.
 
 Lemma m0_bits r : Z.testbit m0 r = true -> 0 <= r < 31.
 Proof.
@@ -336,8 +348,10 @@ Lemma m0_fp : has_fp = true -> Z.testbit m0 29 = true /\ Z.testbit m0 30 = true.
 Proof.
   intros Hfp. destruct a64_cc as [_ [_ [_ [_ [_ [H29 [H30 _]]]]]]].
   unfold m0, saved_regs. rewrite !Z.land_spec. fold cc. change (qget (fo_dirty o) 0) with (q0 (fin_dirty f)).
-  change (qget (cc_preserved cc) 0) with (q0 (cc_preserved cc)). rewrite dirty0_a64, Hfp, H29, H30.
-  rewrite !lor_bit_testbit by lia. cbn. rewrite !orb_true_r. auto.
+  change (qget (cc_preserved cc) 0) with (q0 (cc_preserved cc)). rewrite dirty0_a64, Hfp, H29, H30. cbv zeta.
+  destruct a64_sa as [Hs|[Hs _]].
+  - rewrite Hs. cbn [Z.eqb Pos.eqb]. rewrite !lor_bit_testbit by lia. cbn. rewrite !orb_true_r. auto.
+  - destruct (Z.eqb_spec (fin_sa f) 31); [lia|]. rewrite !lor_bit_testbit by lia. cbn [Z.eqb Pos.eqb]. rewrite !orb_true_r. cbn. auto.
 Qed.
 
 Lemma gp_ids_In r : In r gp_ids -> 0 <= r < 31 /\ (has_fp = true -> r <> 29 /\ r <> 30) /\ Z.testbit m0 r = true.
@@ -412,7 +426,9 @@ Record a64_post (s0 s1 : state) : Prop := mk_a64_post {
   aq_sp : st_reg s1 0 31 = a64_sp_body (st_reg s0 0 31);
   aq_ret : st_ret s1 = None;
   aq_fp : has_fp = true -> st_reg s1 0 29 = st_reg s0 0 31 - total;
-  aq_regs : forall g r, (g, r) <> (0, 31) -> (has_fp = true -> (g, r) <> (0, 29)) -> st_reg s1 g r = st_reg s0 g r;
+  aq_regs : forall g r, (g, r) <> (0, 31) -> (has_fp = true -> (g, r) <> (0, 29)) -> (fin_sa f <> 31 -> (g, r) <> (0, fin_sa f)) ->
+            st_reg s1 g r = st_reg s0 g r;
+  aq_sa : fin_sa f <> 31 -> st_reg s1 0 (fin_sa f) = st_reg s0 0 31 - total;
   aq_mem : forall z, z < st_reg s0 0 31 - total \/ st_reg s0 0 31 <= z -> st_mem s1 z = st_mem s0 z;
   aq_gp : forall i x oy off, nth_error gps i = Some (x, oy, off) ->
           holds (st_mem s1) (st_reg s0 0 31 - total + 16 * Z.of_nat i) 8 (trunc 8 (st_reg s0 0 x)) /\
@@ -424,9 +440,29 @@ Record a64_post (s0 s1 : state) : Prop := mk_a64_post {
 
 Lemma a64_prolog_segs :
   fst (prolog f o) = (if fi_ibp f then [(Mbti, [OImm 3])] else []) ++ a64_group_stores f 0 total gps ++
-                     a64_group_stores f 1 total vps ++ fst (a64_adjust true (fo_stack_adj o)).
+                     a64_group_stores f 1 total vps ++ a64_sa_init f o ++ fst (a64_adjust true (fo_stack_adj o)).
 Proof.
-  unfold prolog. rewrite HA. unfold a64_prolog. rewrite total_eq. fold gps vps. destruct (a64_adjust true (fo_stack_adj o)). reflexivity.
+  unfold prolog. rewrite HA. unfold a64_prolog. rewrite total_eq. fold gps vps.
+  destruct (a64_adjust true (fo_stack_adj o)). reflexivity.
+Qed.
+
+(* `mov saReg, sp` of the fixed tree *)
+Lemma run_sa_init s : st_ret s = None ->
+  exists s', run A64 (a64_sa_init f o) s = Some s' /\
+    (forall g r, (fin_sa f <> 31 -> (g, r) <> (0, fin_sa f)) -> st_reg s' g r = st_reg s g r) /\
+    (fin_sa f <> 31 -> (has_fp = true -> fin_sa f <> 29) -> st_reg s' 0 (fin_sa f) = st_reg s 0 31) /\
+    st_mem s' = st_mem s /\ st_ret s' = None.
+Proof.
+  intros Hret. unfold a64_sa_init. change (fo_sa_reg o) with (fin_sa f).
+  destruct a64_sa as [Hs|[Hs Hv]].
+  - rewrite Hs. cbn [Z.eqb Pos.eqb negb andb]. rewrite !andb_false_r. cbn [andb]. exists s. cbn [run]. splits; auto; try congruence.
+  - rewrite Hv. assert (E1 : (fin_sa f =? id_bad) = false) by (apply Z.eqb_neq; unfold id_bad; lia).
+    assert (E2 : (fin_sa f =? 31) = false) by (apply Z.eqb_neq; lia). rewrite E1, E2. cbn [negb andb].
+    destruct (fi_has_fp f && (fin_sa f =? 29)) eqn:E3; cbn [negb].
+    + exists s. cbn [run]. splits; auto. intros _ H. apply andb_true_iff in E3. destruct E3 as [E3 E4]. apply Z.eqb_eq in E4. specialize (H E3). congruence.
+    + cbn [run]. rewrite step_a64_mov by auto. eexists. split; [reflexivity|]. splits; auto.
+      * intros g r H. apply reg_set_other. apply H. lia.
+      * intros _ _. apply reg_set_same.
 Qed.
 
 Lemma run_adjust (sub : bool) adj s : 0 <= adj <= 16777215 -> st_ret s = None ->
@@ -501,27 +537,50 @@ Proof.
   { rewrite HspV. destruct vps eqn:Ev; [|reflexivity].
     destruct gps eqn:Eg; [|apply HspG'; first [discriminate | rewrite Eg; discriminate]].
     rewrite HspG0 by auto. unfold spn, total, gpt. rewrite ?Eg, ?Ev. cbn [length]. lia. }
+  (* SA register (fixed tree) *)
+  destruct (run_sa_init sV HretV) as [sS [HrunS [HregS [HsaS [HmemS HretS]]]]].
+  rewrite run_app, HrunS.
+  assert (HspS : st_reg sS 0 31 = spn).
+  { rewrite HregS; [exact HspV'|]. intros Hne E. inversion E. congruence. }
   (* stack adjustment *)
-  destruct (run_adjust true (fo_stack_adj o) sV ltac:(split; [exact Ha0 | exact HADJ]) HretV) as [s1 [Hrun1 [Hsp1 [Hreg1 [Hmem1 [Hret1 Hok]]]]]].
+  destruct (run_adjust true (fo_stack_adj o) sS ltac:(split; [exact Ha0 | exact HADJ]) HretS) as [s1 [Hrun1 [Hsp1 [Hreg1 [Hmem1 [Hret1 Hok]]]]]].
   rewrite Hrun1. exists s1. split; [reflexivity|]. split.
   2:{ unfold prolog. rewrite HA. unfold a64_prolog. destruct (a64_adjust true (fo_stack_adj o)); exact Hok. }
   constructor; fold sp0; fold spn.
-  - rewrite Hsp1, HspV'. unfold a64_sp_body, spn. reflexivity.
+  - rewrite Hsp1, HspS. unfold a64_sp_body, spn. reflexivity.
   - exact Hret1.
   - intros Hfp. rewrite Hreg1 by congruence.
     assert (Hgne : gps <> []) by (intros E; apply gps_nil_fp in E; congruence).
-    destruct (list_eq_dec_nil vps) as [Ev|Ev].
-    + rewrite HregV; [apply HfpG; auto | congruence | intros C; contradiction].
-    + apply HfpV; auto.
-  - intros g r H31 H29. rewrite Hreg1, HregV, HregG; auto.
-  - intros z Hz. rewrite Hmem1. rewrite (HmemV z) by lia. apply HmemG. lia.
+    assert (HfpV29 : st_reg sV 0 29 = spn).
+    { destruct (list_eq_dec_nil vps) as [Ev|Ev].
+      + rewrite HregV; [apply HfpG; auto | congruence | intros C; contradiction].
+      + apply HfpV; auto. }
+    destruct (Z.eq_dec (fin_sa f) 29) as [E29|E29].
+    + destruct (Z.eq_dec (fin_sa f) 31) as [E31|E31]; [congruence|].
+      (* sa = x29 and FP preserved: no extra mov, x29 keeps sp *)
+      unfold a64_sa_init in HrunS. change (fo_sa_reg o) with (fin_sa f) in HrunS. rewrite E29, Hfp in HrunS.
+      cbn [Z.eqb Pos.eqb andb negb] in HrunS. rewrite !andb_false_r in HrunS. cbn [run] in HrunS. inversion HrunS; subst sS. exact HfpV29.
+    + rewrite HregS; [exact HfpV29|]. intros _ E. inversion E. congruence.
+  - intros g r H31 H29 Hsa. rewrite Hreg1, HregS, HregV, HregG; auto.
+  - intros Hne. rewrite Hreg1 by (intros E; inversion E; congruence).
+    destruct (Z.eq_dec (fin_sa f) 29) as [E29|E29].
+    + destruct (fi_has_fp f) eqn:Hfp.
+      * unfold a64_sa_init in HrunS. change (fo_sa_reg o) with (fin_sa f) in HrunS. rewrite E29, Hfp in HrunS.
+        cbn [Z.eqb Pos.eqb andb negb] in HrunS. rewrite !andb_false_r in HrunS. cbn [run] in HrunS. inversion HrunS; subst sS.
+        rewrite E29. destruct (list_eq_dec_nil vps) as [Ev|Ev].
+        -- rewrite HregV; [apply HfpG; auto | congruence | intros C; contradiction].
+           intros E. apply gps_nil_fp in E. congruence.
+        -- apply HfpV; auto.
+      * rewrite HsaS; auto. discriminate.
+    + rewrite HsaS; auto.
+  - intros z Hz. rewrite Hmem1, HmemS. rewrite (HmemV z) by lia. apply HmemG. lia.
   - intros i x oy off Hn. assert (Hlt : (i < length gps)%nat) by (apply nth_error_Some; congruence).
     destruct (HslG i x oy off Hn) as [A B]. rewrite Z.add_0_r in A, B. split.
-    + eapply holds_ext; [|exact A]. intros z Hz. rewrite Hmem1. apply HmemV. lia.
-    + intros y Hy. eapply holds_ext; [|exact (B y Hy)]. intros z Hz. rewrite Hmem1. apply HmemV. lia.
+    + eapply holds_ext; [|exact A]. intros z Hz. rewrite Hmem1, HmemS. apply HmemV. lia.
+    + intros y Hy. eapply holds_ext; [|exact (B y Hy)]. intros z Hz. rewrite Hmem1, HmemS. apply HmemV. lia.
   - intros i x oy off Hn. destruct (HslV i x oy off Hn) as [A B].
     assert (Ereg : forall r, st_reg sG 1 r = st_reg s0 1 r) by (intros r; apply HregG; intros; congruence).
-    rewrite Ereg in A. rewrite Hmem1. replace (spn + gpt + 16 * Z.of_nat i) with (sp0 - total + gpt + 16 * Z.of_nat i) in * by (unfold spn; lia).
+    rewrite Ereg in A. rewrite Hmem1, HmemS. replace (spn + gpt + 16 * Z.of_nat i) with (sp0 - total + gpt + 16 * Z.of_nat i) in * by (unfold spn; lia).
     split; auto. intros y Hy. specialize (B y Hy). rewrite Ereg in B. exact B.
 Qed.
 
@@ -668,7 +727,7 @@ Theorem a64_epilog_correct s0 s1 s2 :
                  trunc (qget (cc_srsize cc) g) (st_reg s3 g r) = trunc (qget (cc_srsize cc) g) (st_reg s0 g r)).
 Proof.
   intros sp0 PP BO Hal Hlr.
-  destruct PP as [Qsp Qret Qfp Qregs Qmem Qgp Qvec]. fold sp0 in Qsp, Qfp, Qmem, Qgp, Qvec.
+  destruct PP as [Qsp Qret Qfp Qregs Qsa Qmem Qgp Qvec]. fold sp0 in Qsp, Qfp, Qmem, Qgp, Qvec.
   destruct BO as [Bret Bsp Bfp Bregs Bmem]. fold sp0 in Bmem.
   destruct total_mod as [Htm [Hgm [Hg0 Hgt]]]. destruct adj_facts as [Ha0 [Ham [Hloc Hcall]]].
   set (spn := sp0 - total).
@@ -733,6 +792,8 @@ Proof.
   assert (U : forall g r, (g, r) <> (0, 31) -> Z.testbit (qget (fo_dirty o) g) r = false -> st_reg t3 g r = st_reg s0 g r).
   { intros g r N31 Hd.
     assert (N29 : has_fp = true -> (g, r) <> (0, 29)) by (intros Hfp E; inversion E; subst; rewrite (Hfp29 Hfp) in Hd; discriminate).
+    assert (NSA : fin_sa f <> 31 -> (g, r) <> (0, fin_sa f)).
+    { intros Hne E; inversion E; subst. change (qget (fo_dirty o) 0) with (q0 (fin_dirty f)) in Hd. rewrite (dirty0_sa_bit Hne) in Hd. discriminate. }
     rewrite Hr3; auto.
     - rewrite Hr2; auto.
       + rewrite Hreg1 by auto. rewrite Bregs by auto. apply Qregs; auto.
@@ -812,6 +873,28 @@ Proof.
   unfold a64_sp_body. rewrite total_pp. change (fo_push_pop_size o) with (fin_pp f) in Hfin. lia.
 Qed.
 
+(* fixed tree (fixes/C07-a64-sa-register.patch): FP-relative stack arguments are exact *)
+Lemma a64_stack_args_fp s0 s1 : fi_sa_fix f = true -> has_fp = true -> a64_post s0 s1 ->
+  st_reg s1 0 29 + fo_sa_from_sa o = st_reg s0 0 31.
+Proof.
+  intros Hv Hfp PP. rewrite (aq_fp _ _ PP Hfp).
+  change (fo_sa_from_sa o) with (if fi_has_fp f && negb (fi_sa_fix f && has_link_reg (fi_arch f))
+                                 then (if has_link_reg (fi_arch f) then 0 else qget (cc_srsize cc) 0) + qget (cc_srsize cc) 0
+                                 else (if has_link_reg (fi_arch f) then 0 else qget (cc_srsize cc) 0) + fin_pp f).
+  rewrite Hv, Hfp, HA. cbn [has_link_reg andb negb]. rewrite total_pp. lia.
+Qed.
+
+(* fixed tree: stack arguments relative to a user-chosen SA register *)
+Lemma a64_stack_args_sa s0 s1 : fin_sa f <> 31 -> a64_post s0 s1 ->
+  st_reg s1 0 (fin_sa f) + fo_sa_from_sa o = st_reg s0 0 31.
+Proof.
+  intros Hne PP. rewrite (aq_sa _ _ PP Hne). destruct a64_sa as [?|[_ Hv]]; [congruence|].
+  change (fo_sa_from_sa o) with (if fi_has_fp f && negb (fi_sa_fix f && has_link_reg (fi_arch f))
+                                 then (if has_link_reg (fi_arch f) then 0 else qget (cc_srsize cc) 0) + qget (cc_srsize cc) 0
+                                 else (if has_link_reg (fi_arch f) then 0 else qget (cc_srsize cc) 0) + fin_pp f).
+  rewrite Hv, HA. cbn [has_link_reg andb negb]. rewrite andb_false_r. rewrite total_pp. lia.
+Qed.
+
 Lemma a64_sp_body_aligned sp0 : sp0 mod 16 = 0 -> a64_sp_body sp0 mod fo_final_align o = 0.
 Proof.
   intros H. destruct total_mod as [Htm _]. destruct adj_facts as [_ [Ham _]].
@@ -827,6 +910,8 @@ Theorem a64_roundtrip_sec s0 :
   exists s1, run A64 (fst (prolog f o)) s0 = Some s1 /\ snd (prolog f o) = true /\
     st_reg s1 0 31 = a64_sp_body sp0 /\ st_ret s1 = None /\
     a64_sp_body sp0 mod fo_final_align o = 0 /\ a64_sp_body sp0 + fo_sa_from_sp o = sp0 /\
+    (fi_sa_fix f = true -> has_fp = true -> st_reg s1 0 29 + fo_sa_from_sa o = sp0) /\
+    (fin_sa f <> 31 -> st_reg s1 0 (fin_sa f) + fo_sa_from_sa o = sp0) /\
     forall s2, a64_body_ok s0 s1 s2 ->
       exists s3, run A64 (fst (epilog f o)) s2 = Some s3 /\ snd (epilog f o) = true /\
         st_ret s3 = Some (st_reg s0 0 30) /\ st_reg s3 0 31 = sp0 /\
@@ -837,6 +922,8 @@ Proof.
   destruct (a64_prolog_correct s0 Hret Hal) as [s1 [Hrun [PP Hok]]].
   exists s1. split; [exact Hrun|]. split; [exact Hok|]. split; [apply PP|]. split; [apply PP|].
   split; [apply a64_sp_body_aligned; auto|]. split; [apply a64_stack_args_sp|].
+  split; [intros Hv Hfp; apply a64_stack_args_fp; auto|].
+  split; [intros Hne; apply a64_stack_args_sa; auto|].
   intros s2 BO. apply (a64_epilog_correct s0 s1 s2 PP BO Hal Hlr).
 Qed.
 
